@@ -123,6 +123,7 @@ def analyse(h, v: Verdict, table, stats):
         any(o.startswith("move:") for o in fault["ops_done"]) or any(o.startswith("open:") for o in fault["ops_done"])
         or fault["before"].startswith("write:")) and fault["before"] != "return"
     sigp = "weights_in_place:" if in_weights_window else ""
+    h["in_weights_window"] = bool(in_weights_window)
 
     if resume is not None:
         outcome = "ok"
@@ -266,13 +267,62 @@ def main(tier: str) -> int:
         hs = run_corpus(specs, scratch / "kills")
         for h in hs:
             analyse(h, v, table, stats)
+        # 2b. two kills: first inside a late checkpoint after the previous file was moved to .old (the resume
+        #     falls back to .old), then inside the first checkpoint of the RESUMED process, resume again
+        late = max(n for (k_, n) in ops_by_call if k_ == "ckpt" and n <= 3)
+        ops_late = ops_by_call[("ckpt", late)]
+        first_points = [i for i, o in enumerate(ops_late) if i > 0 and not o.startswith("move:nested") or
+                        (o.startswith("move:") and ".temp->" in o)]
+        first_points = [i for i in range(1, len(ops_late))]          # every point after the move to .old
+        specs2 = []
+        for i1 in (first_points if tier == "thorough" else first_points[:2] + first_points[-1:]):
+            for i2 in (range(1, len(ops_late)) if tier == "thorough" else (1, len(ops_late) - 1)):
+                s2 = base_spec(seed * 100 + 11)
+                s2["extra_by_proc"] = {
+                    "0": {"fs_faults": dict(mode="kill", target=["ckpt", late], op=i1, frac=0.5)},
+                    "1": {"fs_faults": dict(mode="kill", target=["ckpt", 1], op=i2, frac=0.5)}}
+                specs2.append(s2)
+        hs2 = run_corpus(specs2, scratch / "kills2")
+        for h in hs2:
+            raw = load_events([f for f in h["events"] if os.path.exists(f)])
+            faults = [e for e in raw if e["ev"] == "fault"]
+            f2 = h["spec"]["extra_by_proc"]
+            where = (f"two kills: op {f2['0']['fs_faults']['op']} of checkpoint #{late}, then op "
+                     f"{f2['1']['fs_faults']['op']} of the resumed process's first checkpoint")
+            h["where"] = where
+            if len(faults) < 2:
+                v.mismatch(f"{where}: second kill point not reached (codes {h['codes']})")
+                if h["codes"][-1] == 0:
+                    good_hs2 = True
+                continue
+            stats["kills"] += 1
+            stats["double_kills"] = stats.get("double_kills", 0) + 1
+            last = max(e["proc"] for e in raw)
+            pl = [e for e in raw if e["proc"] == last]
+            completed = sum(1 for e in raw if e["ev"] == "ckpt")
+            resume = next((e for e in pl if e["ev"] == "resume"), None)
+            exc = next((e for e in pl if e["ev"] == "exception"), None)
+            init_l = next((e for e in pl if e["ev"] == "init"), None)
+            replay = {"spec": h["spec"], "codes": h["codes"], "faults": faults}
+            if resume is None and (exc is not None or h["codes"][-1] == 3):
+                v.violation("double_kill:resume_failed", f"{where}: resume raised {exc['what'] if exc else '?'}", replay)
+            elif resume is None and init_l is not None and completed > 0:
+                v.violation("double_kill:fresh_start_although_checkpoint_completed",
+                            f"{where}: {completed} checkpoints had completed but the run started afresh", replay)
+            elif resume is not None:
+                all_digests = [e["digest"] for e in raw if e["ev"] in ("ckpt", "ckpt_begin")]
+                if not any(resume["digest"] == d for d in all_digests):
+                    v.violation("double_kill:loaded_state_matches_no_checkpoint",
+                                f"{where}: restored state matches no checkpoint written before", replay)
+            if h["codes"][-1] == 3 and resume is not None:
+                v.violation("double_kill:continued_run_failed", f"{where}: the continued run raised an exception", replay)
         # 3. the continued runs must be valid runs (trace validation, C01/C05 clauses)
-        ok_hs = [h for h in hs if h["codes"][-1] == 0]
+        ok_hs = [h for h in hs if h["codes"][-1] == 0] + [h for h in hs2 if h["codes"][-1] == 0]
         records, tstats, packed = validate_standard(ok_hs, scratch) if ok_hs else ([], {"states": 0, "transitions": 0}, [])
         for r in records:
             if r["k"] == "P" and r["p"] in ("C01", "C05"):
                 h = ok_hs[r["h"]]
-                v.violation("continued_run_invalid:" + r["c"],
+                v.violation(("weights_in_place:" if h.get("in_weights_window") else "") + "continued_run_invalid:" + r["c"],
                             f"{h.get('where')}: clause {r['p']}/{r['c']} fails in the continued run",
                             {"spec": h["spec"], "event": r["ev"]})
         n_ins, n_ins_ok = ins_part(scratch, tier, seed, v, stats)
@@ -287,7 +337,7 @@ def main(tier: str) -> int:
             "samples": [{"operations_of_a_late_checkpoint": ops_by_call.get(("ckpt", 3)),
                          "operations_of_a_weights_save": ops_by_call.get(("weights", 2)),
                          "a_kill_point": targets[len(targets) // 2]}],
-            "outcomes": stats["outcomes"],
+            "outcomes": stats["outcomes"], "double_kill_histories": stats.get("double_kills", 0),
             "spec_states": states, "spec_transitions": trans,
             "continued_runs_validated_by_TLC": len(ok_hs) + n_ins_ok, "ins_kill_points": n_ins,
             "trace_states": tstats["states"],
